@@ -544,3 +544,88 @@ def _c03_extra_with_sites():
 
 
 EXTRA["C03"] = _c03_extra_with_sites
+
+
+# =================================================================================================
+# state carried between calls by the classes that contain masking sites: attribute writes outside __init__,
+# module-level mutable caches, lru_cache — a stale mask can only survive a call through one of these
+def scan_nn_state(repo, site_classes: set[tuple[str, str]]) -> list[tuple[str, str, str]]:
+    import pathlib
+
+    rows = []
+    files = sorted({f for f, _ in site_classes})
+    for rel in files:
+        tree = parse_file(pathlib.Path(repo) / rel)
+        # module-level mutable containers
+        mod_caches = set()
+        for st in tree.body:
+            if isinstance(st, (ast.Assign, ast.AnnAssign)):
+                val = st.value
+                tgts = st.targets if isinstance(st, ast.Assign) else [st.target]
+                if isinstance(val, (ast.Dict, ast.List, ast.Set)) or (
+                        isinstance(val, ast.Call) and ast.unparse(val.func) in ("dict", "list", "set", "OrderedDict", "defaultdict",
+                                                                                "collections.OrderedDict", "collections.defaultdict")):
+                    for t in tgts:
+                        if isinstance(t, ast.Name) and t.id != "__all__":
+                            mod_caches.add(t.id)
+        for cls in [n for n in tree.body if isinstance(n, ast.ClassDef) and (rel, n.name) in site_classes]:
+            for fn in [n for n in cls.body if isinstance(n, (ast.FunctionDef, ast.AsyncFunctionDef))]:
+                qual = f"{cls.name}.{fn.name}"
+                for dec in fn.decorator_list:
+                    d = ast.unparse(dec)
+                    if "lru_cache" in d or d.split("(")[0].split(".")[-1] in ("cache", "cached_property", "memoize"):
+                        rows.append((rel, qual, f"decorator {d}"))
+                if fn.name in ("__init__", "__setstate__", "__new__"):
+                    continue
+                for n in ast.walk(fn):
+                    tgts = []
+                    if isinstance(n, ast.Assign):
+                        tgts = n.targets
+                    elif isinstance(n, (ast.AugAssign, ast.AnnAssign)):
+                        tgts = [n.target]
+                    elif isinstance(n, ast.Call) and ast.unparse(n.func) in ("setattr", "object.__setattr__") and n.args \
+                            and ast.unparse(n.args[0]) == "self":
+                        rows.append((rel, qual, "setattr(self, …)"))
+                    elif isinstance(n, ast.Call) and isinstance(n.func, ast.Attribute) and n.func.attr in (
+                            "register_buffer", "__setattr__", "setdefault", "update", "append", "add", "insert", "extend") \
+                            and (ast.unparse(n.func.value).startswith("self.") and n.func.attr in ("setdefault", "update", "register_buffer", "__setattr__")
+                                 or ast.unparse(n.func.value) in mod_caches):
+                        rows.append((rel, qual, f"{ast.unparse(n.func)}(…)"))
+                    for t in tgts:
+                        for e in (t.elts if isinstance(t, (ast.Tuple, ast.List)) else [t]):
+                            base = e
+                            while isinstance(base, ast.Subscript):
+                                base = base.value
+                            if isinstance(base, ast.Attribute) and ast.unparse(base).startswith("self."):
+                                rows.append((rel, qual, f"write {ast.unparse(base)}"))
+                            elif isinstance(base, ast.Name) and base.id in mod_caches and isinstance(e, ast.Subscript):
+                                rows.append((rel, qual, f"write module-level {base.id}[…]"))
+                for n in ast.walk(fn):
+                    if isinstance(n, ast.Global):
+                        rows.append((rel, qual, "global " + ", ".join(n.names)))
+    return sorted(set(rows))
+
+
+_prev_extra2 = EXTRA["C03"]
+
+
+def _c03_extra_with_state():
+    from ..gen import REPO
+
+    text, status = _prev_extra2()
+    try:
+        sites = scan_nn_sites(REPO)
+        classes = {(s["file"], s["func"].split(".")[0]) for s in sites if "." in s["func"]}
+        rows = scan_nn_state(REPO, classes)
+        text += ("\n/-- state that outlives a call in the classes containing masking sites: attribute writes outside `__init__`, "
+                 "module-level mutable containers written from methods, caching decorators -/\n"
+                 "def nn_state_writes : List (String × String × String) := [\n"
+                 + ",\n".join(f"  ({_lean_str(a)}, {_lean_str(b)}, {_lean_str(c)})" for a, b, c in rows) + "\n]\n")
+        status["nn_state_writes"] = f"translated ({len(rows)} writes in {len(classes)} classes)"
+    except Exception as e:  # noqa: BLE001
+        text += f"\n/-- SKIPPED ({type(e).__name__}: {e}) -/\ndef nn_state_writes : List (String × String × String) := []\n"
+        status["nn_state_writes"] = f"skipped: {e}"
+    return text, status
+
+
+EXTRA["C03"] = _c03_extra_with_state
